@@ -261,9 +261,9 @@ PROPS = {
     assumptions=["the set of listeners does not change during the sends (C17 otherwise)"],
  ),
  "C17": dict(
-    level_text="PARTIAL proof: the C03 theorems (no create/drop micro-step between the first and last step of a send) and the C09 theorems for the log channel (a late subscriber gets a suffix, the others are unaffected); for arbitrary interleavings of listener creation / removal with the fan-out loop the property is FALSE of the code and of the model: three counterexample theorems (missed event, leaked pool slot, torn list) whose executions are exhibited on the real channels by the churn scenario and recorded as known findings. Tied to the code by step-level replay of the churn runs (the model reproduces the misbehaviour step by step).",
-    level_note="Known findings D7-miss, D7-stale, D7-leak (known_findings.json). What is proved is the fixed-listener case; the full statement does not hold.",
-    lean=["C17", "C03"],
+    level_text="PARTIAL proof: the C03 theorems (no create/drop micro-step between the first and last step of a send) for the queue-per-listener kinds; FULL statement for the log channel: in every reachable state of model M9 - publications, polls and listener creations of all three kinds by any number of threads interleaved at every access of the log topic - every subscriber holds literally the segment log[start, cursor) of the one shared log, each position once, in order, whatever listeners were created meanwhile (c17_log_listener_unaffected; a late subscriber gets a suffix: c09_new_only / c09_split_created; removing a log listener touches no state of the log). For the queue-per-listener kinds and arbitrary interleavings of listener creation / removal with the fan-out loop the property is FALSE of the code and of the model: three counterexample theorems (missed event, leaked pool slot, torn list) whose executions are exhibited on the real channels by the churn scenario and recorded as known findings. Tied to the code by step-level replay of the churn runs (the model reproduces the misbehaviour step by step).",
+    level_note="Known findings D7-miss, D7-stale, D7-leak (known_findings.json). What is proved is the fixed-listener case for the queue-per-listener kinds and the full statement for the log channel; the full statement does not hold for the queue-per-listener kinds.",
+    lean=["C17", "C17_Log", "C03"],
     scenarios=[dict(bin="multi", args=[f"kind={k}", "sub=churn", "drains=1"], runs=300, model_name="M6+M7 Multi", kinds=["destroyed_while_held", "slot_reused_while_held", "held_value_changed", "missed_event", "stale_event", "storage_leaked", "invented", "duplicate", "order", "different_allocation", "panic", "no_progress"]) for k in MULTI_KINDS] +
               [dict(bin="mmaplog", args=[], runs=300, model_name="M9 MmapLog")],
     rule="2-3 listeners that exist throughout, one producer (1-3 events), one thread creating / dropping other listeners, MAX_STREAMS = 4; yield points at every bookkeeping access and fan-out position; DISTINCT by trace hash; NON-TRIVIAL if a bookkeeping step of the churn thread falls between two fan-out steps of one send",
